@@ -281,6 +281,12 @@ Section Analyze.
         Some {| a_env := Some (match x with Some y => aput e3 y res | None => e3 end);
                 a_trig := arg_triggers e (fun i => SParam g i) 0 args;
                 a_gsafe := forallb (fun a => use_ok (prods_of_atom e a)) args; a_rsafe := true |}
+    | SRetCall cs g args =>
+        (* return g(args): the callee's result site flows into this function's, whatever the error (the callee's
+           value result only matters when its error is nil, and then so does this one's) *)
+        Some {| a_env := None;
+                a_trig := arg_triggers e (fun i => SParam g i) 0 args ++ [mk_trigger 0 (PSite (SResult g)) (CSite (SResult f))];
+                a_gsafe := forallb (fun a => use_ok (prods_of_atom e a)) args; a_rsafe := false |}
     | SConv x _ _ => Some {| a_env := Some (aputk e x [PNever]); a_trig := store_triggers x [PNever]; a_gsafe := true; a_rsafe := true |}
     | SCallI _ d x xi k m args =>
         (* calling a method on an interface value dereferences it; arguments and result go through the sites of
@@ -483,6 +489,11 @@ Section WF.
         (* value and error go into two distinct locals *)
         match x with Some (VG _) => false | _ => true end &&
         match xe with Some (VL _ as y) => match x with Some y' => negb (var_eqb y y') | None => true end | Some (VG _) => false | None => true end
+    | SRetCall _ g args =>
+        match nth_error (p_funcs p) g with
+        | Some fd => Nat.eqb (length args) (f_nparams fd)
+        | None => false
+        end && forallb atom_ok args
     | SIf c a b => cond_ok c && stmt_ok a && stmt_ok b
     | SWhile c b => cond_ok c && stmt_ok b
     | SReturn a => atom_ok a
